@@ -1,0 +1,141 @@
+//! Child module of `service_info`: state dumps and a facade over `Probe` (verification only).
+use super::*;
+use crate::dns_parser::verif_wire::{dump_record, hex, Rec};
+use std::fmt::Write as _;
+
+impl ServiceInfo {
+    pub(crate) fn verif_dump(&self) -> String {
+        let mut addrs: Vec<String> = self.addresses.iter().map(|a| a.to_string()).collect();
+        addrs.sort();
+        let mut st: Vec<String> = self
+            .status
+            .iter()
+            .map(|(k, v)| format!("{k}:{v:?}"))
+            .collect();
+        st.sort();
+        format!(
+            "ty={} sub={:?} full={} host={} addrs={:?} port={} ttl={}/{} pw={}/{} txt={} auto={} probe={} ll={} intfs={:?} status={:?}",
+            self.ty_domain,
+            self.sub_domain,
+            self.fullname,
+            self.server,
+            addrs,
+            self.port,
+            self.host_ttl,
+            self.other_ttl,
+            self.priority,
+            self.weight,
+            hex(&self.generate_txt()),
+            self.addr_auto,
+            self.requires_probe,
+            self.is_link_local_only,
+            self.supported_intfs,
+            st,
+        )
+    }
+}
+
+impl DnsRegistry {
+    pub(crate) fn verif_dump(&self, if_index: u32, now: u64) -> String {
+        let mut s = String::new();
+        let mut names: Vec<_> = self.probing.keys().cloned().collect();
+        names.sort();
+        for n in names {
+            let p = &self.probing[&n];
+            let mut w: Vec<_> = p.waiting_services.iter().cloned().collect();
+            w.sort();
+            let _ = writeln!(
+                s,
+                "reg {} probing {} start={} next={} waiting={:?}",
+                if_index,
+                n,
+                p.start_time as i128 - now as i128,
+                p.next_send as i128 - now as i128,
+                w
+            );
+            for r in p.records.iter() {
+                let _ = writeln!(s, "  rec {}", dump_static(r.as_ref()));
+            }
+        }
+        let mut names: Vec<_> = self.active.keys().cloned().collect();
+        names.sort();
+        for n in names {
+            let _ = writeln!(s, "reg {if_index} active {n}");
+            for r in self.active[&n].iter() {
+                let _ = writeln!(s, "  rec {}", dump_static(r.as_ref()));
+            }
+        }
+        let mut t: Vec<i128> = self
+            .new_timers
+            .iter()
+            .map(|t| *t as i128 - now as i128)
+            .collect();
+        t.sort_unstable();
+        if !t.is_empty() {
+            let _ = writeln!(s, "reg {if_index} new_timers {t:?}");
+        }
+        let mut nc: Vec<_> = self.name_changes.iter().collect();
+        nc.sort();
+        for (a, b) in nc {
+            let _ = writeln!(s, "reg {if_index} rename {a} -> {b}");
+        }
+        s
+    }
+}
+
+/// A registry record: its creation time is irrelevant to behaviour (only name, new name, type,
+/// class, flush bit, TTL and RDATA are read), so times are left out.
+fn dump_static(r: &dyn DnsRecordExt) -> String {
+    let full = dump_record(r, 0);
+    // strip " cr=.. ex=.. rf=.." which `dump_record` prints between ttl and rd
+    match (full.find(" cr="), full.find(" rd=")) {
+        (Some(a), Some(b)) if a < b => format!("{}{}", &full[..a], &full[b..]),
+        _ => full,
+    }
+}
+
+/// Outcome of feeding one incoming probe to `Probe::tiebreaking`.
+#[derive(Clone, Debug, PartialEq, Eq)]
+pub struct TiebreakOutcome {
+    /// True if the probe postponed itself (it lost).
+    pub lost: bool,
+    pub start_time: u64,
+    pub next_send: u64,
+}
+
+/// Runs the real `Probe::tiebreaking` for a probe that holds `mine` (inserted with the real
+/// `insert_record`) and started at `start_time`, against the datagram `incoming` (a probe query
+/// with authority records) at thread-clock time `now`.
+pub fn tiebreak(
+    mine: &[Rec],
+    probe_name: &str,
+    start_time: u64,
+    incoming: &[u8],
+    now: u64,
+) -> crate::Result<TiebreakOutcome> {
+    let msg = DnsIncoming::new(incoming.to_vec(), InterfaceId::default())?;
+    let mut p = Probe::new(start_time);
+    for r in mine {
+        p.insert_record(r.to_box());
+    }
+    crate::verif::set_thread_clock(Some(now));
+    p.tiebreaking(&msg, probe_name);
+    crate::verif::set_thread_clock(None);
+    Ok(TiebreakOutcome {
+        lost: p.start_time != start_time,
+        start_time: p.start_time,
+        next_send: p.next_send,
+    })
+}
+
+/// The order in which `Probe::insert_record` keeps `recs` (as indices into `recs`).
+pub fn probe_order(recs: &[Rec]) -> Vec<Rec> {
+    let mut p = Probe::new(0);
+    for r in recs {
+        p.insert_record(r.to_box());
+    }
+    p.records
+        .iter()
+        .filter_map(|r| Rec::from_box(r.as_ref()))
+        .collect()
+}
